@@ -266,7 +266,7 @@ Proof.
   induction segs as [|s r IH]; intros c start t hu shuf bl t' hu' shuf' HI; cbn [conv_norep].
   - intros H; inversion H; subst. exact HI.
   - destruct ((pop s <? 0) || (npop <=? pop s)); [discriminate|].
-    destruct (pt_get t (pop s)); [|discriminate].
+    destruct (pt_get t (pop s)) as [[|p0 pl]|]; [discriminate| |discriminate].
     destruct shuf as [|perm shuf1]; [discriminate|].
     destruct (find_random_sample_with false perm hu c start (endc s)) as [[[smp h]|k] hu1] eqn:E; [|discriminate].
     pose proof (frs_inv perm hu c start (endc s) HI) as HI1. unfold find_random_sample in HI1.
@@ -287,7 +287,7 @@ Proof.
   induction segs as [|s r IH]; intros c start t hu shuf bl t' hu' shuf'; cbn [conv_norep].
   - intros H; inversion H; subst. cbn. auto.
   - destruct ((pop s <? 0) || (npop <=? pop s)); [discriminate|].
-    destruct (pt_get t (pop s)); [|discriminate].
+    destruct (pt_get t (pop s)) as [[|p0 pl]|]; [discriminate| |discriminate].
     destruct shuf as [|perm shuf1]; [discriminate|].
     destruct (find_random_sample_with false perm hu c start (endc s)) as [[[smp h]|k] hu1] eqn:E; [|discriminate].
     destruct (conv_norep false npop r c (endc s + 1) (pt_set t (pop s) perm) hu1 shuf1)
